@@ -35,6 +35,8 @@ pub fn check(tier: Tier) -> Check {
     parts.push(Part::new("C09/qos2", json!({"depth": tier.pick(5, 6), "flavour": 9, "ids": [1, 2, 3]}), 0, tier.pick(40, 300)));
     // the bookkeeping across a reconnect: kept while the session lives, forgotten when it expired
     parts.push(Part::new("C09/reset", json!({}), 0, 60));
+    // re-deliveries that arrive seconds later (real time), the messages carrying a Message Expiry Interval
+    parts.push(Part::new("C09/aging", json!({}), 0, 60));
     parts.push(Part::new("C09/wide", json!({"n": tier.pick(4096, 65535)}), 0, 300));
     // value flavour (DESIGN 4): the same exploration with requests / inbound messages of unusual content
     parts.push(Part::new("C09/qos2", json!({"depth": tier.pick(6, 7), "vals": 1}), 0, tier.pick(40, 300)));
@@ -207,7 +209,53 @@ pub fn reset(prop: &'static str, name: String, params: Value) -> Scenario {
     })
 }
 
+/// Real time passes between a QoS 2 delivery and its re-delivery - longer than the Message Expiry
+/// Interval the message carries (0 s / 1 s). Expiry is the server's business (it stops forwarding an
+/// expired message); an exchange the client has answered with PUBREC stays open until its PUBREL,
+/// however old it is.
+fn aging(name: String, params: Value) -> Scenario {
+    Box::new(move |chz, ex| {
+        let with_expiry = chz.choose(2) == 1;
+        let mut sys = Sys::new("C09", &name, chz);
+        sys.params = params.clone();
+        sys.bring_up(vec![]);
+        sys.apply(Ev::Start(OpSpec::Subscribe(SubscribeSpec::simple("s/a"))));
+        if sys.dead {
+            return sys.report(ex, &[]);
+        }
+        let ack = sys.ack_for(0, 0, "").unwrap();
+        sys.apply(Ev::Deliver(ack));
+        sys.apply(Ev::TakeStream(0));
+        if sys.dead {
+            return sys.report(ex, &[]);
+        }
+        let sid = sys.m.subs[0].sub_id.unwrap();
+        let msg = |pid: u16, dup: bool, exp: u32, tag: &str| {
+            let mut p = inbound(2, dup, pid, &[sid], tag);
+            if let (SPacket::Publish { props, .. }, true) = (&mut p, with_expiry) {
+                props.push(Prop::u32(P_MESSAGE_EXPIRY, exp));
+            }
+            p
+        };
+        sys.apply(Ev::Deliver(msg(1, false, 0, "a")));
+        sys.apply(Ev::Deliver(msg(2, false, 1, "b")));
+        sys.events.push("(2.2 s of real time pass)".into());
+        std::thread::sleep(std::time::Duration::from_millis(2200));
+        sys.apply(Ev::Deliver(msg(1, true, 0, "a")));
+        sys.apply(Ev::Deliver(msg(2, false, 1, "b")));
+        sys.apply(Ev::Deliver(pubrel_in(1)));
+        sys.apply(Ev::Deliver(msg(1, false, 0, "c")));
+        sys.apply(Ev::Deliver(pubrel_in(2)));
+        sys.apply(Ev::Deliver(pubrel_in(1)));
+        sys.finish();
+        sys.report(ex, &["qos2-redelivery-suppressed"]);
+    })
+}
+
 pub fn scenario(name: &str, params: &Value) -> Scenario {
+    if name == "C09/aging" {
+        return aging(name.to_string(), params.clone());
+    }
     if name == "C09/reset" {
         return reset("C09", name.to_string(), params.clone());
     }
